@@ -87,7 +87,7 @@ func (s1 jsonSet) diff(n JsonNode, path path, metadata []Metadata, strategy patc
 		}
 		return append(d, e)
 	}
-	if strategy == mergePatchStrategy && !s1.Equals(n) {
+	if strategy == mergePatchStrategy && !s1.Equals(n, metadata...) {
 		e := DiffElement{
 			Path:      path.prependMetadataMerge(),
 			NewValues: nodeList(n),
